@@ -190,6 +190,21 @@ def suite_C07():
                         ('round', lambda x: math.floor(x + Fraction(1, 2)) if x >= 0 else -math.floor(-x + Fraction(1, 2)))]:
             cases.append(('r%d' % k, '%s(%s)' % (name, ea), str(f(a)), dict(a=str(a), op=name, level_a=la)))
             k += 1
+    # element-wise action on vectors with scalars broadcast on either side
+    for op, f in ops.items():
+        if op == '/':
+            continue
+        for a, bs in [(Fraction(7), [2, 3, 4]), (Fraction(-7), [2, -3, 5])]:
+            sv = [f(a, Fraction(b)) for b in bs]
+            vs = [f(Fraction(b), a) for b in bs]
+            vv = [f(Fraction(b), Fraction(c)) for b, c in zip(bs, reversed(bs))]
+            V = 'V(%s)' % ', '.join(lit(b) for b in bs)
+            Vr = 'V(%s)' % ', '.join(lit(b) for b in reversed(bs))
+            for expr, vals in [('%s %s %s' % (lit(int(a)), op, V), sv), ('%s %s %s' % (V, op, lit(int(a))), vs), ('%s %s %s' % (V, op, Vr), vv)]:
+                cases.append(('v%d' % k, 'list(%s)' % expr, '[%s]' % ', '.join(show_frac(x) for x in vals), dict(expr=expr, what='vector broadcast')))
+                k += 1
+    cases.append(('v%d' % k, 'V(1,2,3) + V(1,2)', 'ERR', dict(what='vectors of different lengths are rejected')))
+    k += 1
     # level of mixed results
     for ea, eb, ty in [('1', '(1/2)', 'rational'), ('(1/2)', '1.5', 'float'), ('1', '1.5', 'float'), ('1.5', '(1+2i)', 'complex'), ('(1/2)', '(1+2i)', 'complex'), ('2', '3', 'int')]:
         for op in ['+', '-', '*']:
@@ -259,6 +274,11 @@ def suite_C09():
             k += 1
             cases.append(('s%d' % k, 'len(set([%s, %s]))' % (a, b), '1', dict(a=a, b=b, what='set')))
             k += 1
+    for a, b in [('V((0.0/0.0), 1)', 'V((0.0/0.0), 1)'), ('[(0.0/0.0), 1]', '[(0.0/0.0), 1]'), ('V(1, 2)', 'V(1.0, (4/2))'), ('[[1], 2.0]', '[[1.0], 2]')]:
+        cases.append(('w%d' % k, '{%s: "hit"}[%s]' % (a, b), 'hit', dict(stored=a, lookup=b)))
+        k += 1
+        cases.append(('u%d' % k, 'len(set([%s, %s]))' % (a, b), '1', dict(a=a, b=b, what='set')))
+        k += 1
     for ga, gb in itertools.combinations(groups, 2):
         if ga[0] == '(0.0/0.0)' or gb[0] == '(0.0/0.0)':
             continue
@@ -304,6 +324,19 @@ def suite_C10():
                 else:
                     cases.append(('s%d' % k, sexpr, exp, dict(kind=kind, len=n, lo=lo, hi=hi)))
                 k += 1
+        sexpr = 'stream([%s])' % ', '.join(map(str, py))
+        for i in idxs:
+            try:
+                exp = str(py[i])
+            except IndexError:
+                exp = 'ERR'
+            cases.append(('t%d' % k, '(%s)[%s]' % (sexpr, lit(i)), exp, dict(kind='stream', len=n, index=i)))
+            k += 1
+        for lo, hi in itertools.product([None, 0, 1, n, n + 2, -1, -n - 1, 2**62], repeat=2):
+            sl = py[lo:hi]
+            cases.append(('r%d' % k, 'list((%s)[%s:%s])' % (sexpr, '' if lo is None else lit(lo), '' if hi is None else lit(hi)), '[%s]' % ', '.join(map(str, sl)),
+                          dict(kind='stream', len=n, lo=lo, hi=hi)))
+            k += 1
         for i in range(-2 * n - 1, 2 * n + 2):
             if n:
                 cases.append(('c%d' % k, '[%s] !%% %s' % (', '.join(map(str, py)), lit(i)), str(py[i % n]), dict(kind='list', len=n, cyclic_index=i)))
@@ -468,6 +501,28 @@ def suite_C03():
         expr = '(\\ -> (%s %s))()' % (sets, chain)
         cases.append(('h%d' % k, expr, str(exp), dict(chain=chain.replace('vf_add', '+').replace('vf_sub', '-').replace('vf_mul', '*').replace('vf_pow', '^').replace('vf_div', '//'),
                                                        precedences={o: pmap[o] for o in uniq}, assoc={o: assoc[o] for o in uniq})))
+        k += 1
+    # chainable comparisons under reassigned precedences: merge exactly when the left operator would otherwise apply first
+    cmpf = {'<': lambda a, b: int(a < b), '<=': lambda a, b: int(a <= b), '>': lambda a, b: int(a > b)}
+    cnames = {'<': 'vf_lt', '<=': 'vf_le', '>': 'vf_gt'}
+    setup += 'vf_lt := <; vf_le := <=; vf_gt := >;\n'
+    for (o1, o2), (p1, p2), (a, b, c) in itertools.product(itertools.permutations(['<', '<=', '>'], 2), itertools.product([1, 2, 3], repeat=2),
+                                                          [(1, 2, 3), (3, 2, 1), (0, 5, 3), (2, 2, 2), (-1, 5, 3)]):
+        def tighter2(pl, pr):
+            return pl[0] > pr[0] or (pl[0] == pr[0])   # comparisons are left-associative
+        toks = [(o1, (p1, 'L'), b), (o2, (p2, 'L'), c)]
+
+        def runc(op, args):
+            if isinstance(op, tuple):   # merged chain: all adjacent comparisons hold
+                return int(all(cmpf[o](x, y) for o, x, y in zip(op, args, args[1:])))
+            return cmpf[op](args[0], args[1])
+
+        def chainc(f, g):
+            fs = f if isinstance(f, tuple) else (f,)
+            return fs + (g,)
+        exp = _climb_reference(a, toks, tighter2, chainc, runc)
+        expr = '(\\ -> (%s::precedence = %d; %s::precedence = %d; %s %s %s %s %s))()' % (cnames[o1], p1, cnames[o2], p2, lit(a), cnames[o1], lit(b), cnames[o2], lit(c))
+        cases.append(('q%d' % k, expr, str(exp), dict(chain='%d %s %d %s %d' % (a, o1, b, o2, c), precedences={o1: p1, o2: p2}, what='chainable comparisons')))
         k += 1
     # chained comparisons merge exactly when the left one is tighter than (or ties left-assoc with) the next
     for a, b, c in itertools.product([1, 2, 3], repeat=3):
